@@ -227,8 +227,8 @@ def s_handler_call(I, recv, args, kw):
     rely = I.st.ghost.get('HANDLER_RELY')
     if rely:
         rely(I, ev)
-    c = I.st.choice(4, 'handler')
-    I.st.ghost['HANDLER_OUTCOME'] = c
+    c = I.st.choice(5, 'handler')
+    I.st.ghost['HANDLER_OUTCOME'] = min(c, 3)
     if c == 0:
         I.st.uses_any = True
         v = VAny(core.fresh('handler_result', core.AnySort()))
@@ -241,6 +241,10 @@ def s_handler_call(I, recv, args, kw):
         code = VAny(core.fresh('exit_code', core.AnySort()))
         I.st.ghost['EXIT_CODE'] = code
         raise RaiseSig(VExc('SystemExit', [code], {'code': code}))
+    if c == 4:
+        # any exception a handler raises is isolated, also one that derives from BaseException but not from Exception
+        # (asyncio.CancelledError, GeneratorExit, a user class); GeneratorExit stands for that family
+        lib.raise_(I, 'GeneratorExit', VStr('handler failed with a BaseException that is not an Exception'))
     lib.raise_(I, 'Exception', VStr('handler failed'))
 
 
